@@ -587,8 +587,8 @@ def _wmpt_ops(events):
 
 WMPT = dict(
     name="wmpt", component="wmpt", trace_module="WMPTTrace", trace_cfg="WMPTTrace.cfg",
-    design={"quick": [("WMPT_MC", "WMPT_MCq.cfg"), ("WMPTGC", "WMPTGC_distinct.cfg")],
-            "thorough": [("WMPT_MC", "WMPT_MC.cfg"), ("WMPTGC", "WMPTGC_distinct.cfg")]},
+    design={"quick": [("WMPT_MC", "WMPT_MCq.cfg"), ("WMPT_MC", "WMPT_MCrw.cfg"), ("WMPTGC", "WMPTGC_distinct.cfg")],
+            "thorough": [("WMPT_MC", "WMPT_MC.cfg"), ("WMPT_MC", "WMPT_MCrw.cfg"), ("WMPTGC", "WMPTGC_distinct.cfg")]},
     mutants={t: [("WMPTGC", "WMPTGC_shared.cfg", "Durable")] for t in ("quick", "thorough")},
     gen={"quick": [dict(module="WMPT_MC", cfg="WMPT_gen_sim.cfg", workers=1,
                         extra=["-simulate", "num=1200", "-depth", "20", "-seed", "{seed}"]),
